@@ -40,6 +40,8 @@ pub struct Profile {
     pub signed_chaos: bool,
     /// after a reorg: resubmit the orphaned transactions (same inscription ids)
     pub p_resubmit: (u64, u64),
+    /// a commit right before a reorg (the history rows the reorg needs were just pruned by that commit)
+    pub p_commit_before_reorg: (u64, u64),
 }
 
 impl Default for Profile {
@@ -69,6 +71,7 @@ impl Default for Profile {
             reorg_back: vec![(1, 6), (2, 4), (3, 3), (5, 2), (9, 3), (10, 5), (11, 3), (12, 1), (0, 1), (-1, 1)],
             signed_chaos: false,
             p_resubmit: (1, 2),
+            p_commit_before_reorg: (0, 1),
         }
     }
 }
@@ -333,6 +336,42 @@ impl<'a> Gen<'a> {
         Op::Block { ts: self.ts, hash: self.hash_mode(), txs, finalise }
     }
     pub fn read_op(&mut self) -> ReadOp {
+        let r = self.read_op_plain();
+        if matches!(r, ReadOp::Balance { .. } | ReadOp::Getters) || !self.rng.chance(1, 4) {
+            return r;
+        }
+        // explicit block parameter; half of these run code that looks at block hashes around the chosen height
+        let r = if self.rng.chance(1, 2) {
+            let t = Target::Contract(self.rng.below(6) as u8);
+            match r {
+                ReadOp::EthCall { from, .. } => ReadOp::EthCall { from, to: Some(t), data: Cd::BlockInfo, deploy: None },
+                ReadOp::EstimateGas { from, .. } => ReadOp::EstimateGas { from, to: Some(t), data: Cd::BlockInfo },
+                ReadOp::EthCallMany { mut calls, overrides } => {
+                    calls.push((Who::Pk(0), Some(t), Cd::BlockInfo));
+                    ReadOp::EthCallMany { calls, overrides }
+                }
+                ReadOp::EstimateGasMany { mut calls } => {
+                    calls.push((Who::Pk(0), Some(t), Cd::BlockInfo));
+                    ReadOp::EstimateGasMany { calls }
+                }
+                other => other,
+            }
+        } else {
+            r
+        };
+        let sel = match self.rng.below(12) {
+            0 => BlockSel::Latest,
+            1 => BlockSel::Pending,
+            2 => BlockSel::Earliest,
+            3..=4 => BlockSel::Back(self.rng.range(0, 12) as u8),
+            5..=8 => BlockSel::Ahead(self.rng.range(1, 40) as u8),
+            9 => BlockSel::DecimalBack(self.rng.range(0, 3) as u8),
+            10 => BlockSel::Ahead(*self.rng.pick(&[2u8, 3, 255])),
+            _ => BlockSel::Garbage,
+        };
+        ReadOp::AtBlock { sel, read: Box::new(r) }
+    }
+    fn read_op_plain(&mut self) -> ReadOp {
         match self.rng.below(10) {
             0..=3 => {
                 if self.rng.chance(1, 5) {
@@ -469,6 +508,9 @@ impl<'a> Gen<'a> {
             if self.chance(self.p.p_reorg) {
                 let ws: Vec<u64> = self.p.reorg_back.iter().map(|x| x.1).collect();
                 let back = self.p.reorg_back[self.rng.weighted(&ws)].0;
+                if self.chance(self.p.p_commit_before_reorg) && !matches!(ops.last(), Some(Op::Commit)) {
+                    ops.push(Op::Commit);
+                }
                 ops.push(Op::Reorg { back });
                 if self.chance(self.p.p_resubmit) {
                     ops.push(Op::Resubmit { n: self.rng.range(1, 3) as u8, extra_first: self.rng.chance(1, 2) });
